@@ -298,6 +298,27 @@ def run(report, tier, seed):
                     viol.append(("divmod:spelling:divmod", f"divmod() differs from poly_divmod on ({rep['dividend']}, {rep['divisor']})", rep))
         report.sample({"kind": kind, **rep, "iterations": it}, cap=6)
 
+    # ---- numpy scalars on the left of / % divmod (a "number on the left") ------------------------------------------
+    import operator
+    for sc in (numpy.float64(6), numpy.int64(4), numpy.float32(3)):
+        for g in (q0, q0 + 1, 2 * q1 - q0):
+            n_eval += 1
+            for nm, opf, fn in (("/", operator.truediv, numpoly.poly_divide), ("%", operator.mod, numpoly.poly_remainder)):
+                try:
+                    want = fn(sc, g)
+                except Exception:  # noqa: BLE001
+                    continue
+                try:
+                    got = opf(sc, g)
+                    bad = not numpy.all(numpy.asarray(got == want))
+                    how = f"= {got}"
+                except Exception as exc:  # noqa: BLE001
+                    bad, how = True, f"raised {type(exc).__name__}"
+                if bad:
+                    viol.append(("divmod:numpy-scalar-left", f"{type(sc).__name__}({sc}) {nm} ({g}) {how}; poly_{'divide' if nm == '/' else 'remainder'} "
+                                                             f"gives {want} (and a Python number on the left agrees with it)",
+                                 {"left": repr(sc), "divisor": str(g), "operator": nm}))
+
     failed, errors = cc.run(timeout=1200)
     report.coverage.update({
         "evaluations": n_eval, "distinct_nontrivial": len(nontrivial), "coq_cases": len(cc.cases),
